@@ -2,7 +2,7 @@
    The model of Model/C05_BeamModels.v is run by Coq on the inputs of a case and compared with what
    the real BeamCXLine / BeamEmissionLine / Plasma did on the same inputs. *)
 Require Import Cherab.Common.Qx.
-Require Import Cherab.Model.C05_BeamModels.
+Require Import Cherab.Model.C05_BeamModels Cherab.Model.C05_History.
 From Coq Require Import Qround.
 Open Scope Q_scope.
 
@@ -102,3 +102,32 @@ Definition check_plasma (sps : list species) (code : Z) (zeff nion : Q) : bool :
   | None => (code =? 3)%Z
   | Some z => (code =? 1)%Z && closeq (Qred z) zeff
   end && closeq (Qred (ion_density sps)) nion.
+
+(* ---- Composition as a dictionary: the model of Model/C05_History.v is run on the composition mutations of a
+   history and compared, after every step, with what the real container reports (keys in iteration order and the
+   density each member returns at the origin): exact comparison. ---- *)
+Inductive cop := CAdd (el ch : Z) (n : Q) | CSet (l : list (Z * Z * Q)) | CClear.
+Definition kobj (e : Z * Z * Q) : sobj unit :=
+  mkSobj unit (fst (fst e)) (snd (fst e)) (fun _ => (snd e, 0, (0, 0, 0))).
+Definition apply_cop (l : list (sobj unit)) (o : cop) : list (sobj unit) :=
+  match o with
+  | CAdd el ch n => comp_add unit (kobj (el, ch, n)) l
+  | CSet es => comp_set unit (map kobj es)
+  | CClear => []
+  end.
+Definition view_of (l : list (sobj unit)) : list (Z * Z * Q) :=
+  map (fun o => (o_el unit o, o_ch unit o, dens (sample unit tt o))) l.
+Definition same_view (a b : list (Z * Z * Q)) : bool :=
+  all2 (fun x y => (fst (fst x) =? fst (fst y))%Z && (snd (fst x) =? snd (fst y))%Z && Qeq_bool (snd x) (snd y)) a b.
+(* steps: the mutations of one history step and the container's report after it *)
+Fixpoint check_comp_history (l : list (sobj unit)) (steps : list (list cop * list (Z * Z * Q))) : bool :=
+  match steps with
+  | [] => true
+  | (ops, view) :: t =>
+      let l' := fold_left apply_cop ops l in
+      same_view (view_of l') view && check_comp_history l' t
+  end.
+
+(* the probed notification table as a function *)
+Definition table_of (probed : list (Z * (bool * bool))) (k : Z) : bool * bool :=
+  match find (fun e => (fst e =? k)%Z) probed with Some e => snd e | None => (false, false) end.
